@@ -537,3 +537,75 @@ _base_scn_new = scenarios
 
 def scenarios():
     return _base_scn_new() + [signature_new(True), signature_new(False)]
+
+
+def revoker(sensitive):
+    """PGPKey.revoker (RFC 4880 5.2.3.15): a direct-key signature of this key over itself whose *hashed* area names the other key as
+    revocation key (its algorithm, its fingerprint, class 0x80, or 0xC0 when marked sensitive), made non-revocable"""
+    label = 'C02/PGPKey.revoker[%s]' % ('sensitive' if sensitive else 'normal')
+
+    def gen(repo):
+        ST = repo.enum_members('pgpy.constants.SignatureType')
+        r = scn.Run(repo, KEY, 'revoker', label)
+        ex, st = r.ex, r.st
+        me, other = E.VObj(KEY, 'component'), E.VObj(KEY, 'revoker')
+        KEYID = z3.Const('MY_KEYID', B)
+        FPR = {'component': E.VStr(z=z3.Const('MY_FPR', B), cls='pgpy.types.Fingerprint'), 'revoker': E.VStr(z=z3.Const('REVOKER_FPR', B), cls='pgpy.types.Fingerprint')}
+        r.hook(KEY, 'fingerprint', lambda ex, st, o, a: [(st, FPR[o.ref])])
+        r.hook('pgpy.types.Fingerprint', 'keyid', lambda ex, st, o, a: [(st, E.VStr(z=KEYID))] if o is FPR['component'] else [(st, E.VStr(z=z3.Const('OTHER_KEYID', B)))])
+        ALG = {'component': z3.Int('my_algorithm'), 'revoker': z3.Int('revoker_algorithm')}
+        r.hook(KEY, 'key_algorithm', lambda ex, st, o, a: [(st, E.VInt(ALG[o.ref], enum='pgpy.constants.PubKeyAlgorithm'))])
+        newsig = E.VObj(SIG, 'newsig')
+        r.set('newsig', '_signature', E.VObj('pgpy.packet.packets.SignatureV4', 'spkt'))
+        r.set('spkt', 'subpackets', E.VObj('pgpy.packet.fields.SubPackets', 'subp'))
+
+        def new_hook(ex, st, o, a, kws):
+            st.ghost['new_args'] = (a, kws)
+            return [(st, newsig)]
+        new_hook.wants_kws = True
+        r.hook(SIG, 'new', scn.method_hook(new_hook))
+
+        def addnew_kw(ex, st, o, a, kws):
+            st.ghost['adds'] = st.ghost.get('adds', ()) + ((a, kws),)
+            return [(st, E.VNone())]
+        addnew_kw.wants_kws = True
+        r.hook('pgpy.packet.fields.SubPackets', 'addnew', scn.method_hook(addnew_kw))
+
+        def _sign(ex, st, o, a, kws):
+            st.ghost['_sign'] = (o, a, kws)
+            return [(st, a[1])]
+        _sign.wants_kws = True
+        r.hook(KEY, '_sign', scn.method_hook(_sign))
+        kws = {'sensitive': E.VBool(True)} if sensitive else {}
+        for pi, (s, v) in enumerate(r.call(me, [other], kws)):
+            if isinstance(v, E.Raise):
+                r.oblige(s, 'safety(%s)/p%d' % (v.exc, pi), z3.BoolVal(False), v.where)
+                continue
+            na, sg, adds = s.ghost.get('new_args'), s.ghost.get('_sign'), s.ghost.get('adds', ())
+            r.oblige(s, 'creates-and-signs-one-signature/p%d' % pi, z3.BoolVal(na is not None and sg is not None and v is newsig))
+            if na is None or sg is None:
+                continue
+            a = na[0]
+            r.oblige(s, 'a-direct-key-signature-by-this-key/p%d' % pi,
+                     z3.And(ex.as_int(a[0]) == ST['DirectlyOnKey'], ex.as_int(a[1]) == ALG['component'], a[3].z == KEYID if isinstance(a[3], E.VStr) and a[3].z is not None else z3.BoolVal(False)))
+            ok = len(adds) == 1 and isinstance(adds[0][0][0], E.VStr) and adds[0][0][0].s == 'RevocationKey' and 'hashed' in adds[0][1] and z3.is_true(z3.simplify(ex.truth(adds[0][1]['hashed'], s)))
+            r.oblige(s, 'one-revocation-key-subpacket,hashed/p%d' % pi, z3.BoolVal(bool(ok)))
+            if ok:
+                kw = adds[0][1]
+                r.oblige(s, 'names-the-other-key:its-algorithm-and-its-fingerprint/p%d' % pi,
+                         z3.And(ex.as_int(kw['algorithm']) == ALG['revoker'] if isinstance(kw.get('algorithm'), (E.VInt, E.VBool)) else z3.BoolVal(False), z3.BoolVal(kw.get('fingerprint') is FPR['revoker'])))
+                kc = kw.get('keyclass')
+                r.oblige(s, 'class-octet-0x80(normal)%s/p%d' % ('-plus-0x40(sensitive)' if sensitive else '', pi),
+                         ex.as_int(kc) == (0xC0 if sensitive else 0x80) if isinstance(kc, (E.VInt, E.VBool)) else z3.BoolVal(False))
+            r.oblige(s, 'signed-by-this-key-over-itself,marked-non-revocable/p%d' % pi,
+                     z3.And(z3.BoolVal(sg[0] is me and sg[1][0] is me and sg[1][1] is newsig and 'revocable' in sg[2]),
+                            z3.Not(ex.truth(sg[2]['revocable'], s)) if 'revocable' in sg[2] else z3.BoolVal(False)))
+        return r.result()
+    return Scenario(label, KEY + '.revoker', gen, props=('C02', 'C15'))
+
+
+_base_scn_rk = scenarios
+
+
+def scenarios():
+    return _base_scn_rk() + [revoker(False), revoker(True)]
